@@ -7,4 +7,11 @@ SPECS = {
             "reading an item is stateless (StructDeserializer::at(idx)); value-level reading is the subject of C02",
         ],
     },
+    "C20": {
+        "id": "C20", "runners": ["RunC20"],
+        "assumptions": [
+            "JSON specification = the compact-JSON reader of coq/Codec/Json.v (null, naturals, strings with escapes, arrays, objects; no whitespace); serde_json is used as an independent referee on the Rust side",
+            "element field handling (transmute_field) is shared with C09 and only sampled here with a Float32 element",
+        ],
+    },
 }
